@@ -25,7 +25,7 @@ RULE = ("product of (float/int/bool/object arrays 1-3D with mixed-kind axes) x (
         "position mode + N-d boolean masks) x RHS (scalar, array of the selection's shape, broadcastable row, 0-d) x "
         "spellings (a[]=, put, put dict/axis=, .loc[]=, .ix[]=, .iloc[]=, indexing='position') x inplace; cast table over "
         "(bool,int,float,object,float32,int32,int8,uint8) x (bool,int,float,nan,str and values the narrow types cannot hold: 2**40, 300, -1, "
-        "1e300, 0.1, 16777217); non-trivial = the index addresses at least one cell or raises")
+        "1e300, 0.1, 16777217; uint64 vs negative values); assignments that must FAIL leave the array - dtype included - unchanged; non-trivial = the index addresses at least one cell or raises")
 ASSUMPTIONS = ["reference positions from mc/ref.py (same resolver as C01/C02)", "NumPy broadcasting of the RHS to the selection shape"]
 NAMES = ["x", "y", "z"]
 LENS = [3, 2, 3]
